@@ -248,3 +248,36 @@ def run(ctx):
         if rule == "R07.3":
             ctx.add("R06.7", "C06/undo-exits/" + k.split("/", 2)[-1], ok, detail, site)
 FLOORS["R06.7"] = 18
+
+# ---- R06.8: "using any other password returns an error" needs the password to enter the key derivation INJECTIVELY. Read off the
+# composed blob term: the KDF primitive and the position of the password in it. Contract table (trusted, from the primitives'
+# specifications): Argon2 (RFC 9106) hashes LE32(len(P)) || P — injective; PBKDF2-HMAC (RFC 8018 / RFC 2104) uses the password as
+# the HMAC key, and HMAC pads a key shorter than its block with zero bytes (and hashes a longer one), so P and P || 0x00 are the
+# same key. The second case is a genuine counterexample to the statement for k1/k3 (confirmed: findings/demo d11) that the
+# PASERK specification itself prescribes; it is listed in known_findings.json (D11) and cannot be repaired without leaving the spec.
+PASSWORD_INJECTIVE = {"ARGON2ID13": True, "ARGON2": True, "PBKDF2": False}
+_run_c06b = run
+def run(ctx):
+    _run_c06b(ctx)
+    for be in BACKENDS:
+        c = compose_paserk(ctx.world, be, "pbkw")
+        blob = c.get("blob")
+        key = f"C06/password-injective/pbkw/{be}"
+        if blob is None:
+            ctx.add("R06.8", key, False, "no blob term: " + "; ".join(c["problems"]))
+            continue
+        kdfs = subterms(blob, lambda x: x and x[0] in PASSWORD_INJECTIVE)
+        heads = sorted({k[0] for k in kdfs})
+        probs = []
+        if not kdfs:
+            probs.append("no password-based KDF found in the blob construction")
+        for k in kdfs:
+            # the password operand must be the caller's `pass` itself (any preprocessing is judged by R06.5 / R07.1)
+            if not any(a == ("in", "pass") for a in k[1:] if isinstance(a, tuple)):
+                probs.append(f"the password operand of {k[0]} is not the caller's password unmodified")
+        for h in heads:
+            if not PASSWORD_INJECTIVE[h]:
+                probs.append(f"{h}-HMAC keys the PRF with the password: HMAC zero-pads short keys, so `P` and `P || 0x00` derive the same key "
+                             "(another password unwraps the blob)")
+        ctx.add("R06.8", key, not probs, "; ".join(sorted(set(probs))))
+FLOORS["R06.8"] = 6
